@@ -1,0 +1,39 @@
+/*
+ * Copyright 2025 The RuleGo Authors.
+ *
+ * Licensed under the Apache License, Version 2.0 (the "License");
+ * you may not use this file except in compliance with the License.
+ * You may obtain a copy of the License at
+ *
+ *     http://www.apache.org/licenses/LICENSE-2.0
+ *
+ * Unless required by applicable law or agreed to in writing, software
+ * distributed under the License is distributed on an "AS IS" BASIS,
+ * WITHOUT WARRANTIES OR CONDITIONS OF ANY KIND, either express or implied.
+ * See the License for the specific language governing permissions and
+ * limitations under the License.
+ */
+
+package window
+
+import "strings"
+
+// groupKeySeparator joins the parts of a composite window key.
+const groupKeySeparator = "|"
+
+// nullKeyPart is the key part of a NULL or missing group value. A backslash in
+// real data is always escaped (doubled), so this sequence cannot come from a value.
+const nullKeyPart = `\N`
+
+var keyPartEscaper = strings.NewReplacer(`\`, `\\`, groupKeySeparator, `\`+groupKeySeparator)
+
+// escapeKeyPart makes the textual form of one group value safe to join with
+// groupKeySeparator. Plain values are returned unchanged, so ordinary keys keep
+// their familiar form ("alice|30"); a separator or backslash inside a value is
+// escaped, which keeps tuples such as ("a|b","c") and ("a","b|c") apart.
+func escapeKeyPart(s string) string {
+	if !strings.ContainsAny(s, `\`+groupKeySeparator) {
+		return s
+	}
+	return keyPartEscaper.Replace(s)
+}
